@@ -137,6 +137,7 @@ def run_sequence(sh, lab, cfg, ops, clocks, messages=None):
     throttled_advances = 0
     finished = False
     last_frame_step = None
+    last_frame_bar = None
     term = Term(200) if kind in ("ansi", "section") else None
     plain_frames = []
     for i, op in enumerate(ops):
@@ -248,6 +249,7 @@ def run_sequence(sh, lab, cfg, ops, clocks, messages=None):
                     return False
             last_write = t
             last_frame_step = step
+            last_frame_bar = m.group(1)
             # -- residue (ANSI / section) -----------------------------------------------
             if term is not None:
                 rows = body.split("\n")
@@ -271,6 +273,12 @@ def run_sequence(sh, lab, cfg, ops, clocks, messages=None):
             if kind in ("ansi", "section") and not frames:
                 sh.violate("finish-shows-max", record, "finish() drew nothing on an overwriting output")
                 return False
+            # 100 %: the bar segment of the last frame is full (the only sign of it when the format has no percentage,
+            # as for a bar whose maximum was unknown until finish)
+            if cmax and last_frame_bar is not None and last_frame_bar.strip("=") != "":
+                sh.violate("finish-shows-max", record, "after finish the last frame's bar segment is %r: not full although the bar is at its maximum %d" % (last_frame_bar, cmax))
+                return False
+            sh.count("finishes_with_full_bar")
             sh.count("finishes")
     if kind == "plain":
         data = st.fetch()
